@@ -195,24 +195,27 @@ Theorem C01_pow : forall (derived : bool) m a e, wf m -> val m mod 2 = 1 -> 1 < 
   std m r = (std m a ^ val e) mod val m.
 Proof. exact pow_spec. Qed.
 
-(* sum_of_products: the naive fold (used by the fallback branch `bits >= 64N-1`, by the
-   macro's chunk remainders, and asserted equal by the debug_assert of the interleaved
-   branches) is the inner product mod p.  _partial: the interleaved branches themselves
-   (carry_a/carry_b accumulation, chunking) are tied by the correspondence check only.
-   Full statement: the conclusion of C01_sum_of_products_fallback_partial without its
-   premise on const_num_bits. *)
-Theorem C01_sop_naive : forall (derived : bool) m ab, wf m -> val m mod 2 = 1 ->
-  Forall (fun p => elem_ok m (fst p) /\ elem_ok m (snd p)) ab ->
-  let r := sop_naive derived m ab in
-  elem_ok m r /\ std m r = dot m ab 0 mod val m.
-Proof. exact sop_naive_spec. Qed.
-Theorem C01_sum_of_products_fallback_partial : forall (derived : bool) m ab, wf m ->
-  val m mod 2 = 1 ->
-  Forall (fun p => elem_ok m (fst p) /\ elem_ok m (snd p)) ab ->
-  64 * Z.of_nat (length m) - 1 <= const_num_bits m ->
+(* sum_of_products (inner product), every branch of both flavours, every N, every M:
+   fallback (bits >= 64N-1), the interleaved loops with the carry_a/carry_b pair (macro M <= chunk,
+   trait M = 2) and with the single wrapping carry word (trait), chunking with
+   chunk_size = 2(64N - bits) - 1, macro remainder chunks through the naive fold; the result is
+   the canonical inner product mod p.  (dot m ab 0 = sum of std a_i * std b_i.) *)
+Theorem C01_sum_of_products : forall (derived : bool) m ab, wf m -> val m mod 2 = 1 ->
+  Forall (okpair m) ab ->
   let r := sum_of_products derived m ab in
   elem_ok m r /\ std m r = dot m ab 0 mod val m.
-Proof. exact sum_of_products_fallback_partial. Qed.
+Proof. exact sum_of_products_spec. Qed.
+(* the carry bound behind it: with (M+1) p <= 2^(64N) the accumulated carry word never
+   overflows and the running value stays below (M+1) p *)
+Theorem C01_sop_interleaved : forall m ab, wf m -> val m mod 2 = 1 -> Forall (okpair m) ab ->
+  (Z.of_nat (length ab) + 1) * val m <= Wn (length m) ->
+  let r := sop_interleaved_ab m ab in elem_ok m r /\ std m r = dot m ab 0 mod val m.
+Proof. exact sop_interleaved_ab_spec. Qed.
+Theorem C01_chunk_bound : forall m (M : nat), wf m -> m <> [] ->
+  const_num_bits m < 64 * Z.of_nat (length m) - 1 ->
+  (M <= Z.to_nat (2 * (Z.of_nat (length m) * 64 - const_num_bits m) - 1))%nat ->
+  (Z.of_nat M + 1) * val m <= Wn (length m).
+Proof. exact chunk_bound. Qed.
 
 (* conversions (all in standard form; `last m 0 <> 0` = the modulus really has N limbs, as the
    derive macro guarantees) *)
